@@ -226,7 +226,7 @@ Qed.
 
 (* what the monitor needs to know about the first attempt of a batch *)
 Definition first_of (b : list route) (a : attempt) : Prop :=
-  a_owner a = o /\ obs_routes a = nlen b
+  a_owner a = o /\ a_local a = (o =? c_local c) /\ obs_routes a = nlen b
   /\ (a_local a = false -> a_routes a = b)
   /\ (a_local a = true -> c_has_writer c = true -> att_cancel a = false ->
       att_routes a = filter (route_valid (e_msgid ev) o) b).
@@ -266,7 +266,7 @@ Proof.
   pose proof (do_attempt_facts _ _ _ _ _ _ _ Ea Ho (orc_ok_hd _ OK)) as Fa.
   pose proof (att_more_spec _ _ _ _ _ _ _ Fa Hb) as Hma.
   assert (Hfo : first_of b a).
-  { split; [exact (af_owner _ _ _ _ _ _ _ Fa)|]. split.
+  { split; [exact (af_owner _ _ _ _ _ _ _ Fa)|]. split; [exact (af_local _ _ _ _ _ _ _ Fa)|]. split.
     - unfold obs_routes. rewrite (af_obs _ _ _ _ _ _ _ Fa). reflexivity.
     - split; [intros _; exact (af_routes _ _ _ _ _ _ _ Fa)|].
       intros Hl Hw Hc. destruct (af_loc _ _ _ _ _ _ _ Fa Hl) as (_ & Hs). cbn zeta in Hs.
@@ -328,6 +328,21 @@ Proof.
   cbn [run_batches]. rewrite pwr_cancelled by exact Hpos. reflexivity.
 Qed.
 
+Lemma pwr_orc_ok : forall n b orc cx l st1 orc1 cx1,
+  pushWithRetry c ev o n b orc cx = (l, st1, orc1, cx1) -> orc_ok orc -> orc_ok orc1.
+Proof.
+  induction n as [|n IHn]; intros b orc cx l st1 orc1 cx1 E OK; cbn [pushWithRetry] in E.
+  - inversion E; subst. exact OK.
+  - destruct cx; [inversion E; subst; exact OK|].
+    destruct (do_attempt c ev o b (orc_hd orc) false) as [a cx2].
+    destruct ((a_err a =? 0) && is_nil (a_retry a)); [inversion E; subst; apply orc_ok_tl; exact OK|].
+    destruct n as [|n']; [inversion E; subst; apply orc_ok_tl; exact OK|].
+    destruct cx2; [inversion E; subst; apply orc_ok_tl; exact OK|].
+    destruct (pushWithRetry c ev o (S n') (if a_err a =? 0 then a_retry a else b) (orc_tl orc) false)
+      as [[[l2 st2] orc2] cx3] eqn:E2.
+    inversion E; subst. eapply IHn; [exact E2| apply orc_ok_tl; exact OK].
+Qed.
+
 Lemma run_batches_walk : forall bs orc k prev atts st cxf,
   run_batches c ev o bs orc false = (atts, st, cxf) ->
   (0 < c_retry c)%nat ->
@@ -342,21 +357,7 @@ Proof.
   { inversion E; subst. exists []. simpl. auto. }
   cbn [run_batches] in E.
   destruct (pushWithRetry c ev o (c_retry c) b orc false) as [[[l st1] orc1] cx1] eqn:E1.
-  assert (OK1 : orc_ok orc1).
-  { revert E1 OK. clear. generalize (c_retry c) as n. intros n. revert b orc l st1 orc1 cx1.
-    assert (G : forall n b orc cx l st1 orc1 cx1,
-               pushWithRetry c ev o n b orc cx = (l, st1, orc1, cx1) -> orc_ok orc -> orc_ok orc1).
-    { induction n as [|n IHn]; intros b orc cx l st1 orc1 cx1 E OK; cbn [pushWithRetry] in E.
-      - inversion E; subst. exact OK.
-      - destruct cx; [inversion E; subst; exact OK|].
-        destruct (do_attempt c ev o b (orc_hd orc) false) as [a cx2].
-        destruct ((a_err a =? 0) && is_nil (a_retry a)); [inversion E; subst; apply orc_ok_tl; exact OK|].
-        destruct n as [|n']; [inversion E; subst; apply orc_ok_tl; exact OK|].
-        destruct cx2; [inversion E; subst; apply orc_ok_tl; exact OK|].
-        destruct (pushWithRetry c ev o (S n') (if a_err a =? 0 then a_retry a else b) (orc_tl orc) false)
-          as [[[l2 st2] orc2] cx3] eqn:E2.
-        inversion E; subst. eapply IHn; [exact E2| apply orc_ok_tl; exact OK]. }
-    intros b orc l st1 orc1 cx1 E OK. eapply G; eauto. }
+  assert (OK1 : orc_ok orc1) by (eapply pwr_orc_ok; eauto).
   destruct (negb (st1 =? 0) && cx1) eqn:Hstop.
   - (* the batch failed and the context is done: runOwner returns *)
     inversion E; subst atts st cxf. clear E.
